@@ -354,3 +354,86 @@ def _neg_reachable(f, w, it, bi, inline):
     visited_blocks = {k[0] for k in w.visited}
     # exclude the native-list branch of bi383/447 (reads neg[] as a value list): it is not reachable in bitset mode anyway
     return bool(negblocks & visited_blocks)
+
+
+def r19_5(prog, rep, rid="R19.5"):
+    """Tag-bit discipline of the assign functions.  Bit 0 of the positive word is the representation tag
+    (one integer / native list vs bitset).  (a) ass_bi31/ass_bi63: every member bit that goes into the positive word is
+    `1 << E` with E > 0 known on every path (E == 0 would set/leave the tag, so the container keeps claiming it holds a single integer),
+    and the zero/negative members take the sibling arm; the degrade arms and the insertion arms split on the same predicate.
+    (b) ass_bi383/ass_bi447: a plain store to the tag word is never preceded, since the last wipe, by a bitset insertion
+    (it would erase the members 1..31 just inserted)."""
+    from ..q import backward_scan
+    n = 0
+    for name in ("ass_bi31", "ass_bi63"):
+        f = prog.fn(name)
+        cfg = f.cfg
+        mf = MustFacts(cfg)
+        bi = f.params[0]["n"]
+        splits = []
+        for b, i, x, line in cfg.all_elems():
+            for l, kind, node in writes(x):
+                if lv(l) != bi + ".pos" or kind not in ("assign", "compound"):
+                    continue
+                rhs = strip_casts(node.get("r")) if isinstance(node, dict) and node.get("r") is not None else None
+                if rhs is None or rhs.get("k") != "bin" or rhs["op"] != "<<":
+                    continue
+                amt = strip_casts(rhs["r"])
+                key = "%s/pos-bit(%s)" % (name, show(amt))
+                n += 1
+                facts = mf.at(b, i) or set()
+                t = lv(amt) or show(amt)
+                if ("lt", "0", t) in facts or ("le", "1", t) in facts:
+                    rep.ok(rid, key, f.loc(line), "shift amount %s > 0 on every path: the tag bit stays clear" % t)
+                else:
+                    rep.fail(rid, key, f.loc(line),
+                             "a member bit is put into the positive word as 1 << %s without `%s > 0` on every path: for %s == 0 that is the "
+                             "representation tag itself, the container keeps claiming to hold one integer and the member 0 (and whatever follows) is lost" % (t, t, t))
+        # the two splits (stored single value vs new value) use the same predicate
+        for b in cfg.blocks:
+            c = cfg.cond(b)
+            if c is None:
+                continue
+            cs = strip(c)
+            if cs.get("k") == "bin" and cs["op"] in ("<", "<=", ">", ">=") and int_value(strip_casts(cs["r"])) == 0:
+                splits.append((cs["op"], lv(strip_casts(cs["l"])), f.loc(cs.get("line", 0))))
+        key = "%s/split-agreement" % name
+        n += 1
+        ops = {s[0] for s in splits}
+        if len(splits) == 2 and len(ops) == 1:
+            rep.ok(rid, key, f.loc(f.line), "degrade arm and insertion arm split on `%s 0` alike (%s)" % (splits[0][0], ", ".join(s[1] for s in splits)))
+        else:
+            rep.fail(rid, key, f.loc(f.line), "the stored single value and the new value are sorted into the positive/negative word by different predicates: %s" % (
+                ", ".join("%s %s 0" % (s[1], s[0]) for s in splits),))
+    for name, bs in (("ass_bi383", "ass_bs383"), ("ass_bi447", "ass_bs447")):
+        f = prog.fn(name)
+        cfg = f.cfg
+        bi = f.params[0]["n"]
+        found = 0
+        for b, i, x, line in cfg.all_elems():
+            for l, kind, node in writes(x):
+                if kind != "assign" or lv(l) not in ("*%s->pos" % bi, "%s->pos[0]" % bi):
+                    continue
+                found += 1
+                n += 1
+                key = "%s/tag-store#%d" % (name, found)
+
+                def visit(b_, i_, x_):
+                    for c in calls(x_):
+                        if c.get("fn") == "memset":
+                            return "stop"
+                        if c.get("fn") == bs:
+                            return "hit"
+                    return None
+                hits, _ = backward_scan(cfg, (b, i), visit)
+                if hits:
+                    hb, hi = hits[0]
+                    rep.fail(rid, key, f.loc(line),
+                             "the tag word is overwritten (%s) after %s() has already inserted members (line %s): the members 1..31 of the degraded list are erased" % (
+                                 show(x), bs, cfg.blocks[hb].elems[hi].get("line")))
+                else:
+                    rep.ok(rid, key, f.loc(line), "tag store precedes every bitset insertion since the wipe")
+        if not found:
+            rep.broken_("rule=%s %s: no store to the tag word found" % (rid, name))
+    if n < 8:
+        rep.broken_("rule=%s expected >=8 instances, found %d" % (rid, n))
